@@ -494,6 +494,91 @@ func assumptions() {
 	ev.Assume("a violation observed once counts: when rapid re-evaluates an identical case while shrinking, the recorded observation is reused (schedule-dependent failures need not reproduce)")
 }
 
+// ---------------------------------------------------------------- a slice of the repository under the race detector (thorough)
+
+// TestRepoSlice runs before TestSchedules (source order) so that it is not cut by the soft deadline.
+func TestRepoSlice(t *testing.T) {
+	if !ev.Thorough() && os.Getenv("C06_REPO_SLICE") == "" {
+		return
+	}
+	assumptions()
+	// two shards, one GOMAXPROCS each; both runs start from an EMPTY cache
+	procs := map[int]int{2: 16, 4: 4}[ev.Shard()]
+	if ev.NShards() == 1 {
+		procs = 16
+	}
+	if procs == 0 {
+		return
+	}
+	repo := os.Getenv("C06_REPO")
+	if repo == "" {
+		repo = "/repo"
+	}
+	pats := []string{"./pattern/...", "./config/...", "./lintcmd/...", "./unused/..."}
+	if p := os.Getenv("C06_REPO_PATTERNS"); p != "" {
+		pats = strings.Fields(p)
+	}
+	run := func(bin string) (*runResult, error) {
+		cache, err := os.MkdirTemp("", "c06repo-")
+		if err != nil {
+			return nil, err
+		}
+		defer os.RemoveAll(cache)
+		cfg := RunCfg{Format: "json", Procs: procs, Seed: int64(procs), Patterns: pats, limit: 25 * time.Minute}
+		return runIn(bin, repo, cache, cfg, "-mod=readonly")
+	}
+	plain, err := run(binPlain)
+	if err != nil {
+		ev.Infra("repository slice: %v", err)
+		return
+	}
+	if plain.exit != 0 && plain.exit != 1 {
+		ev.Infra("repository slice: plain build exit %d: %s", plain.exit, trunc(plain.stderr, 1500))
+		return
+	}
+	raced, err := run(binRace)
+	if err != nil {
+		ev.Infra("repository slice: %v", err)
+		return
+	}
+	ev.Case(ev.Hash("repo-slice", fmt.Sprint(procs)), true, "race_run", "race_run_repository_slice_cold", fmt.Sprintf("race_procs_%02d", procs))
+	ev.Count("race_run_wall_ms", int(raced.wall.Milliseconds()))
+	desc := fmt.Sprintf("cd %s && GOMAXPROCS=%d staticcheck -f json %s (empty cache)", repo, procs, strings.Join(pats, " "))
+	if raced.timedOut && !raced.raced() {
+		msg := fmt.Sprintf("the -race build did not end within %v (the plain build took %v) in: %s\n%s", raced.limit, plain.wall.Round(time.Second), desc, dumpSummary(raced.stderr))
+		ev.Violate("TestRepoSlice", msg, "txt", []byte(msg))
+		t.Errorf("%s", msg)
+		return
+	}
+	if raced.raced() {
+		msg := "the race detector reported a data race in: " + desc + "\n" + trunc(raced.stderr, 6000)
+		ev.Violate("TestRepoSlice", msg, "txt", []byte(msg))
+		t.Errorf("%s", msg)
+		return
+	}
+	if raced.exit != plain.exit || raced.stdout != plain.stdout {
+		msg := fmt.Sprintf("plain and -race build print different results for: %s\nexit %d vs %d\n%s", desc, plain.exit, raced.exit, firstDiff(plain.stdout, raced.stdout))
+		ev.Violate("TestRepoSlice", msg, "txt", []byte(msg))
+		t.Errorf("%s", msg)
+	}
+}
+
+// TestCorpus runs before TestSchedules (source order): the saved cases come first.
+func TestCorpus(t *testing.T) {
+	if os.Getenv("VERIF_SECONDARY") != "" {
+		return
+	}
+	assumptions()
+	files, _ := filepath.Glob(filepath.Join(os.Getenv("VERIF_ROOT"), "corpus", "C06", "*.json"))
+	sort.Strings(files)
+	for _, f := range files {
+		if ev.PastDeadline() {
+			return
+		}
+		replayFile(t, f, "TestCorpus")
+	}
+}
+
 func TestSchedules(t *testing.T) {
 	assumptions()
 	if _, err := stdPlain.get(); err != nil {
@@ -514,7 +599,12 @@ func TestSchedules(t *testing.T) {
 		raceWarm.Add(1)
 		go func() { defer raceWarm.Done(); stdRace.get() }()
 	}
-	defer raceWarm.Wait()
+	defer func() {
+		raceWarm.Wait()
+		// private caches of a stand-alone run (no-op for the shared ones below VERIF_OUT)
+		stdPlain.drop()
+		stdRace.drop()
+	}()
 	maxPkgs := ev.EnvInt("C06_MAXPKGS", 12, 12)
 	nrep := ev.EnvInt("C06_REPEATS", 1, 30)
 	nfmt := ev.EnvInt("C06_FMT_RUNS", 2, 6)
@@ -577,64 +667,6 @@ func firstSubset(c *Case) any {
 	return c.Subsets[0]
 }
 
-// ---------------------------------------------------------------- a slice of the repository under the race detector (thorough)
-
-func TestRepoSlice(t *testing.T) {
-	if !ev.Thorough() && os.Getenv("C06_REPO_SLICE") == "" {
-		return
-	}
-	// two shards, one GOMAXPROCS each; both runs start from an EMPTY cache
-	procs := map[int]int{2: 16, 4: 4}[ev.Shard()]
-	if ev.NShards() == 1 {
-		procs = 16
-	}
-	if procs == 0 {
-		return
-	}
-	repo := os.Getenv("C06_REPO")
-	if repo == "" {
-		repo = "/repo"
-	}
-	pats := []string{"./pattern/...", "./config/..."}
-	run := func(bin string) (*runResult, error) {
-		cache, err := os.MkdirTemp("", "c06repo-")
-		if err != nil {
-			return nil, err
-		}
-		defer os.RemoveAll(cache)
-		cfg := RunCfg{Format: "json", Procs: procs, Seed: int64(procs), Patterns: pats}
-		return runIn(bin, repo, cache, cfg, "-mod=readonly")
-	}
-	plain, err := run(binPlain)
-	if err != nil {
-		ev.Infra("repository slice: %v", err)
-		return
-	}
-	if plain.exit != 0 && plain.exit != 1 {
-		ev.Infra("repository slice: plain build exit %d: %s", plain.exit, trunc(plain.stderr, 1500))
-		return
-	}
-	raced, err := run(binRace)
-	if err != nil {
-		ev.Infra("repository slice: %v", err)
-		return
-	}
-	ev.Case(ev.Hash("repo-slice", fmt.Sprint(procs)), true, "race_run", "race_run_repository_slice_cold", fmt.Sprintf("race_procs_%02d", procs))
-	ev.Count("race_run_wall_ms", int(raced.wall.Milliseconds()))
-	desc := fmt.Sprintf("cd %s && GOMAXPROCS=%d staticcheck -f json %s (empty cache)", repo, procs, strings.Join(pats, " "))
-	if raced.raced() {
-		msg := "the race detector reported a data race in: " + desc + "\n" + trunc(raced.stderr, 6000)
-		ev.Violate("TestRepoSlice", msg, "txt", []byte(msg))
-		t.Errorf("%s", msg)
-		return
-	}
-	if raced.exit != plain.exit || raced.stdout != plain.stdout {
-		msg := fmt.Sprintf("plain and -race build print different results for: %s\nexit %d vs %d\n%s", desc, plain.exit, raced.exit, firstDiff(plain.stdout, raced.stdout))
-		ev.Violate("TestRepoSlice", msg, "txt", []byte(msg))
-		t.Errorf("%s", msg)
-	}
-}
-
 // ---------------------------------------------------------------- corpus / replay
 
 func replayFile(t *testing.T, f, test string) {
@@ -668,21 +700,6 @@ func replayFile(t *testing.T, f, test string) {
 		}
 	}
 	t.Logf("replay %s: property held in %d evaluation(s) of the plan", f, n)
-}
-
-func TestCorpus(t *testing.T) {
-	if os.Getenv("VERIF_SECONDARY") != "" {
-		return
-	}
-	assumptions()
-	files, _ := filepath.Glob(filepath.Join(os.Getenv("VERIF_ROOT"), "corpus", "C06", "*.json"))
-	sort.Strings(files)
-	for _, f := range files {
-		if ev.PastDeadline() {
-			return
-		}
-		replayFile(t, f, "TestCorpus")
-	}
 }
 
 func TestReplay(t *testing.T) {
